@@ -110,6 +110,15 @@ def _to_obj(x):
     return a
 
 
+def _sf(v):
+    """a symbolic float parameter stands for its symbol (its nominal value must never be looked at)"""
+    if isinstance(v, SymFloat):
+        a = real_np.empty((), dtype=object)
+        a[()] = v.sym
+        return a
+    return v
+
+
 def _elementwise(fn, x):
     if isinstance(x, (str, bytes)) or x is None:
         # what the numpy ufunc does with such an operand
@@ -350,6 +359,7 @@ class NumpyProxy(types.ModuleType):
 
     @staticmethod
     def isclose(a, b, rtol=1e-05, atol=1e-08, equal_nan=False):
+        a, b = [_sf(v) for v in (a, b)]
         a, b = real_np.broadcast_arrays(real_np.asarray(a), real_np.asarray(b))
         if true_dtype(a) != object and true_dtype(b) != object:
             return real_np.isclose(a, b, rtol=rtol, atol=atol, equal_nan=equal_nan)
@@ -363,6 +373,7 @@ class NumpyProxy(types.ModuleType):
 
     @staticmethod
     def allclose(a, b, rtol=1e-05, atol=1e-08, equal_nan=False):
+        a, b = [_sf(v) for v in (a, b)]
         a0, b0 = real_np.asarray(a), real_np.asarray(b)
         if true_dtype(a0) != object and true_dtype(b0) != object:
             return real_np.allclose(a, b, rtol=rtol, atol=atol, equal_nan=equal_nan)
@@ -381,6 +392,7 @@ class NumpyProxy(types.ModuleType):
 
     @staticmethod
     def array_equal(a, b, **k):
+        a, b = [_sf(v) for v in (a, b)]
         a0, b0 = real_np.asarray(a), real_np.asarray(b)
         if true_dtype(a0) != object and true_dtype(b0) != object:
             return real_np.array_equal(a, b, **k)
